@@ -3,6 +3,7 @@ import Mochi.Lemmas.AckRes
 import Mochi.Lemmas.BrokerAnswers
 import Mochi.Lemmas.BrokerAnswersPub
 import Mochi.Props.C04
+import Mochi.Model.AckFit
 /-!
 # C07 — Every request that requires a response gets one
 
@@ -528,3 +529,36 @@ end Mochi.Broker
 #print axioms Mochi.Broker.C07_demo_reach
 #print axioms Mochi.Broker.C07_F07c_counterexample
 #print axioms Mochi.Broker.C07_F07d_counterexample
+
+/-! ## An acknowledgement that does not fit the client's Maximum Packet Size (M15, `Model/AckFit.lean`)
+
+The one way a well-formed request can be left without its acknowledgement by a broker that works: the client
+announced a Maximum Packet Size the SUBACK / UNSUBACK exceeds, and `WritePacket` refuses it. "Answered or closed"
+then rests on `receivePacket` returning the error (tie A: `C07_receive_packet_order_tied`; tie B: the `ackfit`
+suite runs the scenario on the real broker on both sides of the boundary `5 + n ≤ mps`). -/
+
+open Mochi.AckFit in
+/-- for every Maximum Packet Size and every number of filters: the request is acknowledged with exactly one reason
+    code per filter, or the connection is closed — never neither; and it is acknowledged exactly when the
+    acknowledgement fits -/
+theorem C07_ack_fits_or_closed (mps n : Nat) :
+    (answer mps n = .ack n ∨ answer mps n = .closed) ∧ answer mps n ≠ .silent ∧
+    (answer mps n = .ack n ↔ (mps = 0 ∨ ackSize5 n ≤ mps)) := by
+  unfold answer
+  by_cases h : mps = 0 ∨ ackSize5 n ≤ mps
+  · simp [h]
+  · simp [h]
+
+open Mochi.AckFit in
+/-- the boundary for fewer than 125 filters: the acknowledgement takes `5 + n` bytes -/
+theorem C07_ack_size_small (n : Nat) (h : n < 125) : ackSize5 n = 5 + n := by
+  unfold ackSize5 varintLen
+  have : 3 + n < 128 := by omega
+  simp [this]; omega
+
+open Mochi.AckFit in
+example : answer 40 35 = .ack 35 ∧ answer 40 36 = .closed ∧ answer 0 500 = .ack 500 := by decide
+
+#print axioms C07_ack_fits_or_closed
+#print axioms C07_ack_size_small
+
